@@ -121,11 +121,9 @@ def sanitise(spec):
         return spec
     args = [sanitise(x) for x in spec[1:]]
     if kind in BINARY and args[0][0] == 'lit' and args[1][0] == 'lit':
-        _FRESH[0] += 1
-        args[0] = ('num', f'k{_FRESH[0] % 3}')
+        args[0] = ('num', 'k0')
     if (kind in UNARY or kind in ('PowerConstant', 'BelongsTo')) and args[0][0] == 'lit':
-        _FRESH[0] += 1
-        args[0] = ('num', f'k{_FRESH[0] % 3}')
+        args[0] = ('num', 'k1')
     return (kind, *args)
 
 
@@ -487,9 +485,22 @@ def items_for(tier):
     return items
 
 
+def validate_stub(items, every):
+    """differential run of the engine model against the real engine on a sample of the shapes"""
+    from ..validate_engine import validate
+    sample = [(n, s) for k, (n, s, m) in enumerate(items) if m == 'engine' and k % every == 0]
+    return validate(sample, make_frame, in_domain, 3, SYMBOLIC_COLS)
+
+
 def main(tier):
     items = items_for(tier)
     nshapes = len({i[0] for i in items})
+    compared, bad = validate_stub(items, 9 if tier == 'quick' else 25)
+    if bad or compared < 50:
+        print(f'HARNESS ERROR: the engine model disagrees with the real engine ({compared} compared)')
+        for b in bad[:10]:
+            print('  ', b)
+        return 3
     return run_check(
         PID, tier, items, worker,
         functions_encoded=['biogeme.expressions.* constructors and operator overloads', 'convert.validate_and_convert',
@@ -511,6 +522,7 @@ def main(tier):
                      'keys present, chosen alternative available',
                      'engine contract of verif/symengine.py (bioFormula.cc semantics)',
                      'exp/log/sin/cos/Phi/pow are uninterpreted functions (congruence only)'],
+        extra_coverage=dict(stub_validated_against_real_engine=compared),
         rule='one item per (tree shape, evaluation path); a shape is non-trivial when it contains at least one '
              'operator node; distinct by shape name',
     )
